@@ -53,6 +53,24 @@ fn run_seq(seq: &[Op]) -> Option<String> {
         if back != s { return Some(format!("step {}: {:?} gave a slot that prints as {} and parses back to {}", i, op, text, back)); }
         if let Op::Named(n) = op { if let Key::Name(_) = key { if text[1..] != **n { return Some(format!("step {}: name {:?} prints as {}", i, n, text)); } } }
         seen.push((key, s));
+        // The two clauses above are about the slot made in THIS step.  C17 speaks about every slot at every later time as well:
+        // (a) two different slots never print the same text, (b) a slot obtained earlier still parses back from its text.
+        // (Added when a sub-agent found finding F18: an `f<n>` name interned as an ordinary name is overtaken by the counter.)
+        for a in 0..seen.len() { for b in (a + 1)..seen.len() {
+            if seen[a].1 != seen[b].1 && seen[a].1.to_string() == seen[b].1.to_string() {
+                let overtaken = |k: &Key| matches!(k, Key::Name(t) if t.strip_prefix('f').and_then(canon_num).map(|x| x >= (u32::MAX / 8) as u64).unwrap_or(false));
+                let tag = if overtaken(&seen[a].0) || overtaken(&seen[b].0) { "@interned-f-name-overtaken " } else { "" };
+                return Some(format!("{}step {}: two different slots ({:?} and {:?}) print the same text {}", tag, i, seen[a].0, seen[b].0, seen[a].1));
+            }
+        } }
+        for (k2, s2) in &seen {
+            let t2 = s2.to_string();
+            let back2 = Slot::named(&t2[1..]);
+            if back2 != *s2 {
+                let overtaken = matches!(k2, Key::Name(t) if t.strip_prefix('f').and_then(canon_num).map(|x| x >= (u32::MAX / 8) as u64).unwrap_or(false));
+                return Some(format!("{}step {}: the slot obtained earlier as {:?} prints as {} and now parses back to a different slot", if overtaken { "@interned-f-name-overtaken " } else { "" }, i, k2, t2));
+            }
+        }
     }
     None
 }
@@ -76,10 +94,13 @@ pub fn run(only: &[String]) -> Vec<String> {
             let r = std::thread::spawn(move || std::panic::catch_unwind(|| run_seq(&s2))).join().unwrap();
             match r {
                 Err(_) => { fails.push(format!("FAIL {} C17:named.post sequence {:?} -> panic", label, seq)); }
+                // a failure of the specific kind recorded as finding F18 gets a clause of its own (so that KNOWN_FINDINGS.txt can name
+                // exactly that history class and every other failure is still reported as a violation)
+                Ok(Some(msg)) if msg.starts_with("@interned-f-name-overtaken ") => { if !fails.iter().any(|f: &String| f.contains("C17:named.interned-f-name-overtaken")) { fails.push(format!("FAIL {} C17:named.interned-f-name-overtaken sequence {:?}: {}", label, seq, &msg["@interned-f-name-overtaken ".len()..])); } continue; }
                 Ok(Some(msg)) => { fails.push(format!("FAIL {} C17:named.post sequence {:?}: {}", label, seq, msg)); }
                 Ok(None) => {}
             }
-            if fails.len() >= 3 { return fails; }
+            if fails.iter().filter(|f| !f.contains("interned-f-name-overtaken")).count() >= 3 { return fails; }
         }
     }
     fails
